@@ -12,6 +12,6 @@ CONSTANTS
   MaxOps = 0
   EmitMode = "all"
 VIEW View
-INVARIANTS TypeOK PlanLegal KindOK NeverMixesClasses NewestAndFailedExcluded RegularNotStarved MergedOK EmitState
+INVARIANTS TypeOK AllOf EmitState
 PROPERTIES RankDecreases NoWiden
 CHECK_DEADLOCK FALSE
